@@ -556,6 +556,36 @@ Fixpoint cls_codec (c : cls) : option ty :=
   | _ => None
   end.
 
+(* ------------------------------------------------------------------ value codec of the wrapper classes
+   FrozenType / ReversedType .serialize_safe / .deserialize_safe hand the value to their subtype's to_binary / from_binary
+   together with a protocol version.  [route des c pv] follows the top-level wrappers of a class and returns the class
+   whose codec does the work and the protocol version it is called with ([des] = deserialisation). *)
+Definition is_wrapper (n : str) : bool := str_eqb n (lit "FrozenType") || str_eqb n (lit "ReversedType").
+Definition wrapper_ser_pv (n : str) (pv : N) : N := pv.     (* subtype.to_binary(val, protocol_version) *)
+Definition wrapper_des_pv (n : str) (pv : N) : N := pv.     (* subtype.from_binary(byts, protocol_version) *)
+
+Fixpoint route (des : bool) (c : cls) (pv : N) : cls * N :=
+  match c with
+  | CApp n [s] _ =>
+      if is_wrapper n then route des s (if des then wrapper_des_pv n pv else wrapper_ser_pv n pv) else (c, pv)
+  | _ => (c, pv)
+  end.
+
+(* serial_size() of a wrapper is the subtype's (VectorType uses it to choose the element encoding) *)
+Definition wrapper_size_delegates (n : str) : bool := true.
+Fixpoint size_route (c : cls) : cls :=
+  match c with
+  | CApp n [s] _ => if is_wrapper n && wrapper_size_delegates n then size_route s else c
+  | _ => c
+  end.
+
+Fixpoint unwrap (t : ty) : ty :=
+  match t with
+  | TFrozen a => unwrap a
+  | TReversed a => unwrap a
+  | _ => t
+  end.
+
 (* ------------------------------------------------------------------ CQL strings <-> python lists *)
 Inductive pyt := PStr (s : str) | PList (l : list pyt).
 
